@@ -7,6 +7,7 @@ import (
 	"fmt"
 	"go/token"
 	"go/types"
+	"os"
 	"sort"
 	"strings"
 
@@ -576,4 +577,71 @@ func c20DecodePtr(w *World, r *Report) {
 		}
 	}
 	r.Check(n >= 10, "C20/DECODE-PTR", "decoder-calls-seen", "-", fmt.Sprintf("%d decoder calls examined", n), fmt.Sprintf("only %d decoder calls recognised (expected at least 10): the matcher lost its anchors", n))
+}
+
+// c20RegularOnly: the directory loader opens only regular files. Reading a FIFO blocks for ever, a
+// device can be endless: "not one of the kinds I know to refuse" is not the same as "regular".
+func c20RegularOnly(w *World, r *Report) {
+	r.Rule("C20/REGULAR-ONLY", "the chart directory loader reads a file only behind the test that its mode is regular (FileMode.IsRegular, or mode&os.ModeType == 0)", 1)
+	ld := w.Fn("pkg/chart/v2/loader", "LoadDir")
+	if ld == nil {
+		r.Unk("C20/REGULAR-ONLY", "anchor", "-", "loader.LoadDir not found")
+		return
+	}
+	n := 0
+	for _, fn := range withAnon(ld) {
+		g := FullGraph(fn)
+		var regular []Edge
+		for _, b := range fn.Blocks {
+			for _, in := range b.Instrs {
+				switch x := in.(type) {
+				case *ssa.Call:
+					if f, _ := calleeOf(x.Common()); f != nil && FuncName(f) == "(io/fs.FileMode).IsRegular" {
+						for _, e := range condEdges(x) {
+							if e.truth {
+								regular = append(regular, e.Edge)
+							}
+						}
+					}
+				case *ssa.BinOp:
+					if x.Op != token.EQL && x.Op != token.NEQ {
+						continue
+					}
+					var and ssa.Value
+					if z, ok := constInt(x.Y); ok && z == 0 {
+						and = x.X
+					} else if z, ok := constInt(x.X); ok && z == 0 {
+						and = x.Y
+					}
+					ab, ok := and.(*ssa.BinOp)
+					if and == nil || !ok || ab.Op != token.AND {
+						continue
+					}
+					mt := int64(os.ModeType)
+					m1, ok1 := constInt(ab.X)
+					m2, ok2 := constInt(ab.Y)
+					if (ok1 && m1 == mt) || (ok2 && m2 == mt) {
+						for _, e := range condEdges(x) {
+							if e.truth == (x.Op == token.EQL) {
+								regular = append(regular, e.Edge)
+							}
+						}
+					}
+				}
+			}
+		}
+		for _, c := range callInstrs(fn) {
+			f, _ := calleeOf(c.Common())
+			if f == nil || fnPkgPath(f) != "os" || (f.Name() != "ReadFile" && f.Name() != "Open" && f.Name() != "OpenFile") {
+				continue
+			}
+			n++
+			r.Fn(FuncName(fn))
+			ex, _ := g.PathExists(entryPos(fn), posOf(c), Avoid{}.withEdges(regular...))
+			r.Check(!ex && len(regular) > 0, "C20/REGULAR-ONLY", siteKey(Site{fn, c, posOf(c)}), w.InstrPos(c), "the file is read only after its mode was found regular", "a file of the chart directory can be read without its mode having been found regular: a named pipe in the directory makes loading (lint, template, install, package) hang for ever instead of failing with an error")
+		}
+	}
+	if n == 0 {
+		r.Unk("C20/REGULAR-ONLY", "no-site", w.Pos(ld.Pos()), "the directory loader reads no file")
+	}
 }
